@@ -254,6 +254,25 @@ class Shadow:
             return getattr(FN, term[1])(*args, **kwargs)
         raise ValueError(term)
 
+    def guard_literals(self, term):
+        """Building a term evaluates its literal-only sub-terms eagerly (plain Python arithmetic, before any
+        ref is involved).  Evaluate each of them here under the size guards -- independently of errors
+        elsewhere in the term -- and raise Discard if one is unreasonably large."""
+        k = term[0]
+        if k in ("ref", "lit", "litexpr"):
+            return
+        subs = term[2:] if k in ("bin", "un", "bi") else list(term[2]) + [t for _, t in term[3]]
+        for t in subs:
+            if isinstance(t, list):
+                self.guard_literals(t)
+        if not P.is_deferred(term):
+            try:
+                self.eval(term)
+            except Discard:
+                raise
+            except Exception:
+                pass
+
     def all_expected(self):
         """{location text: expected value} for every leaf location; raises what Python raises."""
         memo = {}
